@@ -314,8 +314,7 @@ def c1_cut_graph(ctx):
 
 # =============================================================================================== spanning trees (C16-K1 / K2)
 def _dom(node, stop=None):
-    from ..rules.c1120_util import dominating_conditions, strip_not
-    return [strip_not(t, p) for t, p in dominating_conditions(au.enclosing_stmt(node) if not isinstance(node, ast.stmt) else node, stop=stop)]
+    return au.guards(node, stop=stop)
 
 
 def _consecutive_pairs(loop, b):
